@@ -91,11 +91,43 @@ def run(ck, ctx):
     st = I.new_state()
     obj = I.construct(I.cls(SPEC_MOD, "Spectra"), [cfg], {}, st)
     N = I.input("N", kind="int")
+    # History "the spectrum section of the configuration is replaced between construction and the call"
+    # (apps/run.py does exactly that assignment for --monospectrum / --powerspectrum): whatever the constructor
+    # read from that section is stale, a look-up made during the call gets a node created from here on.
+    for key_ in [k_ for k_ in I._cfgnodes if k_[2][:len(SPEC)] == SPEC]:
+        del I._cfgnodes[key_]
+    n_call0 = len(g.nodes)
+    helpers = {"energy_spectra", "spec_norm", "sum_spec_weights"}
+    I.watch_calls |= helpers
     r = I.run(I.func_node(I.function(SPEC_MOD, "Spectra.__call__")), [obj, N], st=st)
     if r.value is None or I.seq_len(r.value) != 3:
         raise AnalysisError("Spectra.__call__ does not return a triple")
     sample, norm, wsum = (r.ret(k) for k in range(3))
     func = "Spectra.__call__"
+
+    # ---------------------------------------------------------------- R12.6 the spectrum configured at call time
+    def r126():
+        seen = 0
+        for fi_, site_, loc_, _v, _pc in I.call_log:
+            if fi_.qualname not in helpers:
+                continue
+            cands = [v_ for k_, v_ in loc_.items() if v_ is not None and v_.op == "Cfg" and
+                     v_.attr[:len(SPEC)] == SPEC and len(v_.attr) == len(SPEC)]
+            # the parameter as passed (locals are final; the spectrum parameter is never rebound in the helpers)
+            params = [a.arg for a in fi_.node.args.args]
+            arg = next((loc_[p_] for p_ in params if p_ in loc_ and loc_[p_] is not None and loc_[p_].op == "Cfg"), None)
+            if arg is None and cands:
+                arg = cands[0]
+            if arg is None:
+                continue
+            seen += 1
+            ck.ob("R12.6", f"{fi_.qualname} gets the spectrum that is configured when the sample is drawn (looked up "
+                  "during the call, not a reference kept from construction)", arg.id >= n_call0, site_, func,
+                  "the section object read at construction is used: a spectrum assigned to the configuration "
+                  "afterwards (as the command line options do) is ignored" if arg.id < n_call0 else "",
+                  construct=f"Spectra.__call__: spectrum handed to {fi_.qualname}")
+        ck.floor("R12.6", seen, 1, "spectrum helpers called with the configured spectrum")
+    ck.guard(r126, "R12.6")
 
     def cfgn(*path):
         n = cfg
